@@ -457,76 +457,100 @@ example :
 /-! ## concurrency: every method returns -/
 open Hive.Conc
 
-/-- **No combination of Set methods can deadlock.**  Any number of goroutines, each running an
-arbitrary well-formed lock script (`applyMutex` before `OrderedMap.mutex`, no re-entrant acquisition,
-`Lock()` not interleaved with anything else, data accesses under `mutex`): in every configuration
-reachable under the permissive `RWMutex` semantics (a reader may or may not get in while a writer is
-only pending), as long as some goroutine has not finished some goroutine can move under the *strict*
-semantics (a pending writer blocks new readers, the behaviour that makes a re-entrant `RLock`
-fatal).  Hence no reachable configuration is a deadlock. -/
-theorem C11_deadlock_free (scripts : List (List Act)) (hwf : ∀ s ∈ scripts, WF .none .none s)
+/-- **No combination of Set methods can deadlock — for any number of sets.**  Locks: `A i` = `applyMutex` of set
+`i`, `M i` = the `mutex` of its ordered map.  Any number of goroutines, each running an arbitrary well-formed lock
+script (`WF0`: an `applyMutex` of whichever set is only acquired while the goroutine holds nothing at all, a map
+mutex of whichever set only while it holds no map mutex, no re-entrant acquisition, `Lock()` not interleaved with
+anything else, data accesses under a map mutex): in every configuration reachable under the permissive `RWMutex`
+semantics (a reader may or may not get in while a writer is only pending), as long as some goroutine has not
+finished some goroutine can move under the *strict* semantics (a pending writer blocks new readers, the behaviour
+that makes a re-entrant `RLock` fatal).  Hence no reachable configuration is a deadlock.  *Why no cycle exists*:
+all `applyMutex`es have rank 0 and are never nested, all map mutexes — the receiver's and every source's — are
+leaves. -/
+theorem C11_deadlock_free (scripts : List (List Act)) (hwf : ∀ s ∈ scripts, WF0 s)
     (c : Cfg Locks Th) (hr : Reach lockSysP (Locks.init, scripts.map Th.start) c) :
     ¬ Deadlock lockSys threadDone c := by
   rintro ⟨hstuck, t, ht, hnd⟩
   obtain ⟨u, hu, hstep⟩ := progress (linv_reach hwf hr) ⟨t, ht, hnd⟩
   exact hstep (hstuck u hu)
 
-/-- The scripts of all `ds.Set` methods (after the fix), for every argument size and every outcome
-of their data-dependent branches, are well formed — so goroutines that call any sequence of
-`Add`/`Delete`/`AddAll`/`DeleteAll`/`Apply`/`Compute`/`Replace`/`Clear`/readers never deadlock, under
-the strict semantics as well as under the permissive one. -/
-theorem C11_deadlock_free_methods (threads : List (List Call)) (c : Cfg Locks Th)
-    (hr : Reach lockSys (Locks.init, (threads.map (fun cs => cs.flatMap methodScript)).map Th.start) c) :
+/-- The scripts of all `ds.Set` and `OrderedMap` methods (after the fixes) — for every receiver `i`, every source
+set **including the receiver itself** (`s.AddAll(s)`, `s.DeleteAll(s)`, `s.Apply(mutations built from s)`,
+`s.Replace(s)`, `s.HasAll(s)` …) and **crosswise** (`a.AddAll(b)` ‖ `b.AddAll(a)`), every argument size and every
+outcome of their data-dependent branches — are well formed: a source only contributes its map mutex, one
+`ForEach` step at a time.  So goroutines that call any sequence of such methods on any sets never deadlock, under the
+strict semantics as well as under the permissive one. -/
+theorem C11_deadlock_free_methods (threads : List (List (Nat × Call))) (c : Cfg Locks Th)
+    (hr : Reach lockSys (Locks.init, (threads.map (fun cs => cs.flatMap (fun x => methodScript x.1 x.2))).map Th.start) c) :
     ¬ Deadlock lockSys threadDone c := by
   apply C11_deadlock_free _ _ c (reach_strict_permissive hr)
   intro s hs
   obtain ⟨cs, _, rfl⟩ := List.mem_map.1 hs
   exact wf_methods cs
 
-example : WF .none .none (methodScript (.deleteAll [true, false, true]) ++ methodScript (.apply 2 [true]) ++
-    methodScript (.replace 2 3)) := by decide
+example : WF0 (methodScript 0 (.deleteAll 0 [true, false, true]) ++ methodScript 0 (.apply 0 1 2 [true]) ++
+    methodScript 1 (.replace 1 2 3) ++ methodScript 1 (.addAll 0 2) ++ methodScript 0 (.addAll 1 2)) := by decide
 
 /-- **The defect that was fixed.**  `DeleteAll` as it was (the callback calls `s.Delete`, which takes
 `applyMutex.RLock` again): goroutine 0 takes the read lock, goroutine 1 (`Apply`) announces its
 `Lock()`, and now neither can move — a reachable deadlock of two goroutines; the old script is not
 well formed. -/
 theorem C11_old_deleteall_deadlock_witness :
-    let c0 : Cfg Locks Th := (Locks.init, [Th.start (deleteAllOld [true]), Th.start (methodScript (.apply 1 []))])
+    let c0 : Cfg Locks Th := (Locks.init, [Th.start (deleteAllOld 0 [true]), Th.start (methodScript 0 (.apply 1 1 1 []))])
     let c := runSched lockSys c0 [(0, 0), (1, 0)]
-    Reach lockSys c0 c ∧ Deadlock lockSys threadDone c ∧ ¬ WF .none .none (deleteAllOld [true]) := by
-  refine ⟨runSched_reach _ _ _, ?_, by decide⟩
-  unfold Deadlock Stuck threadDone
-  decide
+    Reach lockSys c0 c ∧ Deadlock lockSys threadDone c ∧ ¬ WF0 (deleteAllOld 0 [true]) := by
+  refine ⟨runSched_reach _ _ _, ⟨stuck_of_stuckB (by decide), ?_⟩, by decide⟩
+  exact ⟨_, List.mem_cons_self, by unfold threadDone; decide⟩
 
 /-- `OrderedMap.Clone` must not iterate through `ForEach` while it holds the read lock: with a `Set`
 announcing its `Lock()` between two of the nested `RLock`s nobody can move any more. (`Clone` as it is
-— one `RLock` around a loop that reads the chain directly — is `methodScript (.clone n)`, well formed.) -/
+— one `RLock` around a loop that reads the chain directly — is `methodScript i (.clone n)`, well formed.) -/
 theorem C11_clone_reentrant_deadlock_witness :
-    let c0 : Cfg Locks Th := (Locks.init, [Th.start (cloneReentrant 2), Th.start (methodScript .mapSet)])
+    let c0 : Cfg Locks Th := (Locks.init, [Th.start (cloneReentrant 0 2), Th.start (methodScript 0 .mapSet)])
     let c := runSched lockSys c0 [(0, 0), (1, 0)]
-    Reach lockSys c0 c ∧ Deadlock lockSys threadDone c ∧ ¬ WF .none .none (cloneReentrant 2) ∧
-    WF .none .none (methodScript (.clone 2)) := by
-  refine ⟨runSched_reach _ _ _, ?_, by decide, by decide⟩
-  unfold Deadlock Stuck threadDone
-  decide
+    Reach lockSys c0 c ∧ Deadlock lockSys threadDone c ∧ ¬ WF0 (cloneReentrant 0 2) ∧
+    WF0 (methodScript 0 (.clone 2)) := by
+  refine ⟨runSched_reach _ _ _, ⟨stuck_of_stuckB (by decide), ?_⟩, by decide, by decide⟩
+  exact ⟨_, List.mem_cons_self, by unfold threadDone; decide⟩
+
+/-- **Taking the source's `applyMutex` is not allowed.**  An `AddAll` that read-locks the `applyMutex` of its
+source while holding its own is not well formed, and both ways of going wrong are reachable deadlocks:
+(1) aliasing `s.AddAll(s)`: the second `RLock` of the same mutex queues behind an `Apply` that announced its
+`Lock()` in between; (2) crosswise `a.AddAll(b)` ‖ `b.AddAll(a)` with an `Apply` pending on each set: a lock-order
+cycle between two `applyMutex`es. -/
+theorem C11_source_applymutex_deadlock_witness :
+    (let c0 : Cfg Locks Th := (Locks.init, [Th.start (addAllSourceLocked 0 0 1), Th.start (methodScript 0 (.apply 1 1 1 []))])
+     let c := runSched lockSys c0 [(0, 0), (1, 0)]
+     Reach lockSys c0 c ∧ Deadlock lockSys threadDone c) ∧
+    (let c0 : Cfg Locks Th := (Locks.init, [Th.start (addAllSourceLocked 0 1 1), Th.start (addAllSourceLocked 1 0 1),
+        Th.start (methodScript 0 (.apply 2 2 1 [])), Th.start (methodScript 1 (.apply 2 2 1 []))])
+     let c := runSched lockSys c0 [(0, 0), (1, 0), (2, 0), (3, 0)]
+     Reach lockSys c0 c ∧ Deadlock lockSys threadDone c) ∧
+    ¬ WF0 (addAllSourceLocked 0 0 1) ∧ ¬ WF0 (addAllSourceLocked 0 1 1) ∧
+    WF0 (methodScript 0 (.addAll 0 1)) ∧ WF0 (methodScript 0 (.addAll 1 1) ++ methodScript 1 (.addAll 0 1)) := by
+  refine ⟨⟨runSched_reach _ _ _, stuck_of_stuckB (by decide), ?_⟩, ⟨runSched_reach _ _ _, stuck_of_stuckB (by decide), ?_⟩,
+    by decide, by decide, by decide, by decide⟩
+  · exact ⟨_, List.mem_cons_self, by unfold threadDone; decide⟩
+  · exact ⟨_, List.mem_cons_self, by unfold threadDone; decide⟩
 
 /-! ## concurrency: Apply/Compute/Replace are atomic w.r.t. each other -/
 
 /-- **Mutual exclusion on `applyMutex`.**  In every reachable configuration of any pool of well-formed
-goroutines at most one holds `applyMutex` for writing, and while one does nobody holds it for reading
-(the same for `OrderedMap.mutex`).  `Apply`/`Compute`/`Replace` perform *all* their writes while
-holding it for writing, `Add`/`Delete`/`AddAll`/`DeleteAll` all theirs while holding it for reading:
-no write of another mutator can fall between two writes of an `Apply`/`Compute`/`Replace`. -/
-theorem C11_apply_atomic (scripts : List (List Act)) (hwf : ∀ s ∈ scripts, WF .none .none s)
+goroutines at most one holds a given `applyMutex` for writing, and while one does nobody holds it for reading
+(the same for every map mutex).  `Apply`/`Compute`/`Replace` on set `i` perform *all* their writes to set `i`
+while holding `A i` for writing, `Add`/`Delete`/`AddAll`/`DeleteAll` all theirs while holding it for reading —
+whatever their sources are: no write of another mutator can fall between two writes of an
+`Apply`/`Compute`/`Replace`. -/
+theorem C11_apply_atomic (scripts : List (List Act)) (hwf : ∀ s ∈ scripts, WF0 s)
     (c : Cfg Locks Th) (hr : Reach lockSysP (Locks.init, scripts.map Th.start) c) :
     (∀ l, cnt l .w c.2 ≤ 1 ∧ (cnt l .w c.2 = 1 → cnt l .r c.2 = 0)) ∧
-    (∀ call : Call, call.isMutator = true →
-      guardedBy (if call.isAtomic then .w else .r) .none (methodScript call) = true) :=
+    (∀ (i : Nat) (call : Call), call.isMutator = true →
+      guardedBy i (if call.isAtomic then .w else .r) .none 0 none (methodScript i call) = true) :=
   ⟨fun l => exclusion (linv_reach hwf hr) l, guarded_methodScript⟩
 
-example : guardedBy .w .none (methodScript (.apply 2 [true, false])) = true ∧
-    guardedBy .r .none (methodScript (.deleteAll [true])) = true ∧
-    guardedBy .r .none (methodScript (.apply 1 [])) = false := by decide
+example : guardedBy 0 .w .none 0 none (methodScript 0 (.apply 1 0 2 [true, false])) = true ∧
+    guardedBy 0 .r .none 0 none (methodScript 0 (.deleteAll 0 [true])) = true ∧
+    guardedBy 0 .r .none 0 none (methodScript 0 (.apply 1 1 1 [])) = false := by decide
 
 /-! ## concurrency: single-element operations are linearizable -/
 
@@ -596,9 +620,8 @@ theorem C11_skeleton_set_Compute : skel_set_Compute =
 
 open Hive.Gen.C11Skel in
 theorem C11_skeleton_set_Replace : skel_set_Replace =
-    ["lock s.applyMutex", "defer unlock s.applyMutex", "call s.ToSlice", "call s.Clear", "func{", "call s.Set",
-      "}func", "call elements.Range", "for{", "call s.Has", "if{", "call removedElements.Add", "}if", "}for",
-      "return"] := by decide
+    ["lock s.applyMutex", "defer unlock s.applyMutex", "call s.ToSlice", "call elements.ToSlice", "call s.Clear", "for{",
+      "call s.Set", "}for", "for{", "call s.Has", "if{", "call removedElements.Add", "}if", "}for", "return"] := by decide
 
 open Hive.Gen.C11Skel in
 theorem C11_skeleton_set_apply : skel_set_apply =
